@@ -75,4 +75,31 @@ theorem digestFrom_congr (m1 m2 : Mem) (a b : Nat) : ∀ (k i acc : Nat),
     exact ih (i + 1) _ (fun j h1 h2 => hj j (by omega) (by omega))
 
 
+/-- malloc falls through to step 3 exactly when no free chunk can hold the request -/
+
+theorem reachesStep3_iff (cfg : Cfg) (h : Heap) (n : Nat) :
+    reachesStep3 cfg h n = true ↔ ∀ f ∈ h.flp, f.2 < minLen (roundLen cfg.W n) := by
+  have key := scan_none_iff (len := minLen (roundLen cfg.W n)) h.flp 0 0
+  unfold reachesStep3
+  split
+  · rename_i a hsc
+    have : ¬ ∃ x, scan (minLen (roundLen cfg.W n)) h.flp 0 0 = .inr (0, x) := by
+      rintro ⟨x, hx⟩; rw [hsc] at hx; cases hx
+    rw [key] at this
+    constructor
+    · intro hc; cases hc
+    · intro hall; exact absurd ⟨rfl, hall⟩ this
+  · rename_i s sfp hsc
+    constructor
+    · intro hs
+      have hs0 : s = 0 := by simpa using hs
+      subst hs0
+      exact (key.1 ⟨sfp, hsc⟩).2
+    · intro hall
+      obtain ⟨x, hx⟩ := key.2 ⟨rfl, hall⟩
+      rw [hsc] at hx
+      simp only [Sum.inr.injEq, Prod.mk.injEq] at hx
+      simp [hx.1]
+
+
 end Igris.C10
